@@ -447,3 +447,147 @@ class DictOf(Spec):
                 s = Const(s)
             vs[k], cs[k] = s.make(path, f"{name}.{k}")
         return vs, lambda ev: {k: c(ev) for k, c in cs.items()}
+
+
+# ----------------------------------------------------------------------------- loop specifications
+
+LOOPS = {}
+
+
+class SymList:
+    """A list after havoc: `n0` unknown elements (n0 >= 0 symbolic) followed by the concrete `tail`
+    appended since.  Supports append / len / truthiness; reading the unknown prefix is outside the subset."""
+
+    def __init__(self, n0, tail=None):
+        self.n0 = n0
+        self.tail = list(tail or [])
+
+
+class SymDict:
+    """A dict after havoc: unknown entries plus the stores made since (reads are outside the subset)."""
+
+    def __init__(self, n0):
+        self.n0 = n0
+        self.stores = []
+
+
+class LoopSpec:
+    """
+    Invariant / variant of one loop of a real function, keyed by (function qualname, loop ordinal).
+
+      modifies  : names the loop may assign: local names ("pos") or attributes of self ("self.dibs");
+                  list-valued ones are havocked to a SymList
+      invariant : python function over local names (parameters are looked up in the frame, `self` allowed)
+      decreases : python function -> int; must strictly decrease and stay >= 0 while the loop runs
+    Obligations: invariant on entry, invariant preserved by one arbitrary iteration, variant decreases.
+    """
+
+    def __init__(self, qualname, ordinal, modifies, invariant, decreases=None, int_ranges=None):
+        self.qualname, self.ordinal = qualname, ordinal
+        self.modifies = modifies
+        self.invariant = invariant
+        self.decreases = decreases
+        LOOPS[(qualname, ordinal)] = self
+
+    def _call(self, I, fn, frame):
+        import inspect
+
+        kw = {}
+        for p in inspect.signature(fn).parameters:
+            kw[p] = I.load_name(p, frame)
+        return I.call(fn, [], kw)
+
+    def _havoc(self, I, frame):
+        from .core import SObj
+
+        for m in self.modifies:
+            if m.startswith("self."):
+                obj = frame.locals["self"]
+                attr = m[5:]
+                cur = obj.fields.get(attr) if isinstance(obj, SObj) else None
+                if isinstance(cur, (list, SymList)):
+                    n0 = I.path.fresh_int(f"havoc.{attr}.len")
+                    I.path.assume(n0 >= 0)
+                    obj.fields[attr] = SymList(n0)
+                elif isinstance(cur, (dict, SymDict)):
+                    n0 = I.path.fresh_int(f"havoc.{attr}.len")
+                    I.path.assume(n0 >= 0)
+                    obj.fields[attr] = SymDict(n0)
+                else:
+                    obj.fields[attr] = SInt(I.path.fresh_int(f"havoc.{attr}"))
+            else:
+                cur = frame.locals.get(m)
+                if isinstance(cur, (list, SymList)):
+                    n0 = I.path.fresh_int(f"havoc.{m}.len")
+                    I.path.assume(n0 >= 0)
+                    frame.locals[m] = SymList(n0)
+                else:
+                    frame.locals[m] = SInt(I.path.fresh_int(f"havoc.{m}"))
+
+    def run(self, I, s, frame, kind, iterable):
+        from .core import PathAbort
+        from .interp import _Break, _Continue
+
+        if kind == "for":
+            return self.run_for_range(I, s, frame, iterable)
+        prove = I.cfg["prove"]
+        site = f"{self.qualname}#loop{self.ordinal}"
+        prove("loop-invariant-entry", site, I.as_z3_bool(self._call(I, self.invariant, frame)))
+        # the first iteration is additionally checked from the real entry state: refutations found
+        # there come with an input that replays natively (the havocked state below may be unreachable)
+        first = I.path.choose(2, "loop!first-or-arbitrary") == 0
+        if not first:
+            self._havoc(I, frame)
+            I.path.assume(I.as_z3_bool(self._call(I, self.invariant, frame)))
+        if not I.truth(I.eval(s.test, frame)):
+            if first:
+                raise PathAbort()  # exit is explored from the havocked state
+            I.exec_block(s.orelse, frame)
+            return
+        v0 = self._call(I, self.decreases, frame) if self.decreases is not None else None
+        try:
+            I.exec_block(s.body, frame)
+        except _Break:
+            return
+        except _Continue:
+            pass
+        prove("loop-invariant-preserved", site, I.as_z3_bool(self._call(I, self.invariant, frame)))
+        if v0 is not None:
+            v1 = self._call(I, self.decreases, frame)
+            prove("loop-variant-decreases", site, z3.And(iexpr(v0) >= 0, iexpr(v1) < iexpr(v0)))
+        raise PathAbort()  # an arbitrary iteration has been checked; the exit path continues separately
+
+    def run_for_range(self, I, s, frame, iterable):
+        """`for x in range(a, b, step)` (step > 0 constant): the invariant speaks about the state only;
+        termination is by construction (x strictly increases towards b)."""
+        import ast as _ast
+
+        from .core import PathAbort
+        from .interp import _Break, _Continue
+
+        if isinstance(iterable, range):
+            start, stop, step = iterable.start, iterable.stop, iterable.step
+        elif type(iterable).__name__ == "SRange":
+            start, stop, step = iterable.start, iterable.stop, iterable.step
+        else:
+            raise Unsupported("loop specification on a for loop that is not over range()")
+        if not isinstance(step, int) or step <= 0 or not isinstance(s.target, _ast.Name) or s.orelse:
+            raise Unsupported("for-range loop specification needs a constant positive step and a simple target")
+        prove = I.cfg["prove"]
+        site = f"{self.qualname}#loop{self.ordinal}"
+        prove("loop-invariant-entry", site, I.as_z3_bool(self._call(I, self.invariant, frame)))
+        self._havoc(I, frame)
+        I.path.assume(I.as_z3_bool(self._call(I, self.invariant, frame)))
+        if I.path.choose(2, "loop!iterate-or-exit") == 1:
+            return  # after the loop: havocked state satisfying the invariant
+        x = I.path.fresh_int("loopvar." + s.target.id)
+        I.path.assume(z3.And(x >= iexpr(start), x < iexpr(stop), (x - iexpr(start)) % step == 0))
+        frame.locals[s.target.id] = SInt(x)
+        try:
+            I.exec_block(s.body, frame)
+        except _Break:
+            return
+        except _Continue:
+            pass
+        prove("loop-invariant-preserved", site, I.as_z3_bool(self._call(I, self.invariant, frame)))
+        raise PathAbort()
